@@ -16,6 +16,7 @@ import (
 	"math/rand"
 	"os"
 	"path/filepath"
+	"runtime"
 	"sort"
 	"sync"
 	"testing"
@@ -28,6 +29,7 @@ import (
 	"go.minekube.com/gate/pkg/edition/java/proto/packet/plugin"
 	"go.minekube.com/gate/pkg/edition/java/proxy"
 	gproto "go.minekube.com/gate/pkg/gate/proto"
+	"go.minekube.com/gate/pkg/verifexport"
 
 	"verif/harness/mcwire"
 	"verif/harness/rig"
@@ -53,6 +55,8 @@ type out struct {
 	id   int
 	body []byte
 	kind string
+	held bool
+	h    *hold
 }
 
 func varintLen(v int) int { return mcwire.VarIntLen(int32(v)) }
@@ -252,6 +256,19 @@ func expand(steps []step, dir string, ver, srcThr, dstThr int, di dirInfo, rng *
 			} else {
 				res = append(res, out{id: di.icptID, body: bungeeGetServerBody(ver), kind: "icpt"})
 			}
+		case s.Size == "held":
+			// held in the proxy's encoder while other players relay (see hold); only where the
+			// destination hop compresses, else an ordinary small packet
+			if dstThr < 0 {
+				res = append(res, mk("small"))
+				break
+			}
+			seq++
+			n, h := newHold()
+			id := di.unknown[rng.Intn(len(di.unknown))]
+			body := make([]byte, n-varintLen(id))
+			fill(body, dir, seq, rng, false)
+			res = append(res, out{id: id, body: body, kind: "unknown", held: true, h: h})
 		case s.Size == "burst":
 			for i := 0; i < 16; i++ {
 				res = append(res, mk(burstClasses[rng.Intn(len(burstClasses))]))
@@ -310,6 +327,13 @@ func TestStreams(t *testing.T) {
 	if err != nil {
 		t.Fatal(err)
 	}
+	// few Ps: the encoder's buffer pool is per P, so other connections are much more likely to
+	// pick up the very buffer a held frame has (wrongly) given back
+	if n := tracefmt.EnvInt("VERIF_PROCS", 0); n > 0 {
+		defer runtime.GOMAXPROCS(runtime.GOMAXPROCS(n))
+	}
+	verifexport.InstallHook(encoderHook)
+	defer verifexport.InstallHook(nil)
 	var statMu sync.Mutex
 	stats := map[string]int{}
 	var samples []any
@@ -378,7 +402,7 @@ func TestStreams(t *testing.T) {
 			go func() {
 				defer wg.Done()
 				defer func() { <-sem }()
-				log, note := runScenario(r, w, si, sc, seed, idle)
+				logs, note := runScenario(r, w, si, sc, seed, idle)
 				if note != "" {
 					statMu.Lock()
 					skipped = append(skipped, fmt.Sprintf("scenario %d (ver %d): %s", si, sc.Ver, note))
@@ -386,6 +410,13 @@ func TestStreams(t *testing.T) {
 					return
 				}
 				statMu.Lock()
+				log := &runLog{}
+				for _, l := range logs {
+					l.mu.Lock()
+					log.recs = append(log.recs, l.recs...)
+					l.mu.Unlock()
+				}
+				stats["players"] += len(logs)
 				for _, rc := range log.recs {
 					switch rc["ev"] {
 					case "send":
@@ -425,39 +456,107 @@ func TestStreams(t *testing.T) {
 	if err := tw.Close(); err != nil {
 		t.Fatal(err)
 	}
+	holdMu.Lock()
+	stats["frames_held_in_encoder"] = holdHits
+	holdMu.Unlock()
 	tracefmt.WriteJSON("stats.json", map[string]any{"stats": stats, "samples": samples, "skipped": skipped, "events": tw.N})
 }
 
-// runScenario joins one client, pumps the scenario and returns the run's records; note != ""
-// means the rig could not set the scenario up (never a verdict).
-func runScenario(r *rig.Rig, w *world, si int, sc scenario, seed int64, idle time.Duration) (*runLog, string) {
-	rng := rand.New(rand.NewSource(seed*1000003 + int64(si)*7919))
-	name := fmt.Sprintf("r%d_%d", seed%1000, si)
-	cthr, bthr := sc.Cthr-1, sc.Bthr-1
-	if sc.Ver < rig.P1_8 {
-		return nil, "protocol below 1.8 not driven"
+// ------------------------------------------------------------------ held frames
+
+// A "held" packet is stopped inside the proxy's encoder, between compressing its frame and
+// writing it (gate point enc.frame), while other players relay compressible packets through
+// the same proxy; then it is let go. Holds are keyed by the packet's payload length, taken
+// from a range no other size class uses.
+type hold struct {
+	parked  chan struct{}
+	release chan struct{}
+	used    bool
+}
+
+var (
+	holdMu   sync.Mutex
+	holds    = map[int]*hold{}
+	holdNext = 20000
+	holdHits int
+)
+
+func newHold() (int, *hold) {
+	holdMu.Lock()
+	defer holdMu.Unlock()
+	holdNext += 3
+	if holdNext > 31000 {
+		holdNext = 20003
 	}
+	h := &hold{parked: make(chan struct{}), release: make(chan struct{})}
+	holds[holdNext] = h
+	return holdNext, h
+}
+
+// encoderHook is the process-wide verifhook receiver of this harness.
+func encoderHook(gate bool, name string, kv []any) {
+	if !gate || name != "enc.frame" || len(kv) < 2 {
+		return
+	}
+	n, _ := kv[1].(int)
+	holdMu.Lock()
+	h := holds[n]
+	if h == nil || h.used {
+		holdMu.Unlock()
+		return
+	}
+	h.used = true
+	holdHits++
+	holdMu.Unlock()
+	close(h.parked)
+	select {
+	case <-h.release:
+	case <-time.After(20 * time.Second):
+	}
+}
+
+// ------------------------------------------------------------------ endpoints
+
+// endpoint is one joined player: its client, its backend connection and its run log.
+type endpoint struct {
+	name       string
+	ver        int
+	cthr, bthr int
+	c          *rig.Client
+	ho         *handoff
+	frC, frB   *rig.FrameReader
+	sb, cb     dirInfo
+	log        *runLog
+}
+
+func (e *endpoint) close() {
+	e.c.Close()
+	close(e.ho.done)
+}
+
+// joinPlayer joins a fake client through the proxy to the backend with threshold bthr1-1.
+func joinPlayer(r *rig.Rig, w *world, name string, ver, cthr, bthr1 int, extra tracefmt.Rec) (*endpoint, string) {
 	ch := make(chan *handoff, 1)
 	w.mu.Lock()
-	w.target[name] = fmt.Sprintf("b%d", sc.Bthr)
+	w.target[name] = fmt.Sprintf("b%d", bthr1)
 	w.arrived[name] = ch
 	w.mu.Unlock()
-	c, err := r.NewClient(sc.Ver)
+	c, err := r.NewClient(ver)
 	if err != nil {
 		return nil, "dial: " + err.Error()
 	}
-	defer c.Close()
 	c.Timeout = 30 * time.Second
 	if err := c.JoinFullyAny("localhost", name); err != nil {
+		c.Close()
 		return nil, "join: " + err.Error()
 	}
 	var ho *handoff
 	select {
 	case ho = <-ch:
 	case <-time.After(30 * time.Second):
+		c.Close()
 		return nil, "backend never completed the join"
 	}
-	defer close(ho.done)
 	if !rig.WaitFor(30*time.Second, func() bool {
 		p := r.P.PlayerByName(name)
 		return p != nil && p.CurrentServer() != nil
@@ -466,28 +565,32 @@ func runScenario(r *rig.Rig, w *world, si int, sc scenario, seed int64, idle tim
 		p := r.P.PlayerByName(name)
 		c.Timeout = 200 * time.Millisecond
 		pk, rerr := c.ReadPacket()
+		c.Close()
+		close(ho.done)
 		return nil, fmt.Sprintf("player never got a current server (registered=%v active=%v, client next read: %v %v)",
 			p != nil, p != nil && p.Active(), pk, rerr)
 	}
 	if got := c.Threshold(); got != cthr {
+		c.Close()
+		close(ho.done)
 		return nil, fmt.Sprintf("client hop threshold is %d, scenario wants %d", got, cthr)
 	}
-
-	log := &runLog{}
-	log.add(tracefmt.Rec{"ev": "reset", "ver": sc.Ver, "cthr": cthr, "bthr": bthr, "scen": si, "name": name})
-
-	sb := dirInfoFor(gproto.ServerBound, sc.Ver)
-	cb := dirInfoFor(gproto.ClientBound, sc.Ver)
-	var c2sSteps, s2cSteps []step
-	for _, s := range sc.H {
-		if s.Dir == "c2s" {
-			c2sSteps = append(c2sSteps, s)
-		} else {
-			s2cSteps = append(s2cSteps, s)
-		}
+	e := &endpoint{name: name, ver: ver, cthr: cthr, bthr: bthr1 - 1, c: c, ho: ho, log: &runLog{},
+		frC: rig.NewFrameReader(c.Conn), frB: rig.NewFrameReader(ho.bc.Conn),
+		sb: dirInfoFor(gproto.ServerBound, ver), cb: dirInfoFor(gproto.ClientBound, ver)}
+	rec := tracefmt.Rec{"ev": "reset", "ver": ver, "cthr": cthr, "bthr": bthr1 - 1, "name": name}
+	for k, v := range extra {
+		rec[k] = v
 	}
-	c2s := expand(c2sSteps, "c2s", sc.Ver, cthr, bthr, sb, rng)
-	s2c := expand(s2cSteps, "s2c", sc.Ver, bthr, cthr, cb, rng)
+	e.log.add(rec)
+	return e, ""
+}
+
+// exchange pumps the packets of both directions concurrently and reads what arrives until
+// everything relayable has arrived, or nothing has for `idle` after the senders finished, or
+// the connection ended; it then logs the directions' "end" records. held is called after a
+// held packet was written.
+func (e *endpoint) exchange(c2s, s2c []out, idle time.Duration, held func(dir string, o out)) {
 	expect := func(os []out) int {
 		n := 0
 		for _, o := range os {
@@ -497,15 +600,22 @@ func runScenario(r *rig.Rig, w *world, si int, sc scenario, seed int64, idle tim
 		}
 		return n
 	}
-
+	log := e.log
 	var sendersDone sync.WaitGroup
 	doneCh := make(chan struct{})
 	recvLoop := func(dir string, fr *rig.FrameReader, mine map[int]bool, want int, wg *sync.WaitGroup) {
 		defer wg.Done()
 		got := 0
-		closed := false
 		last := time.Now()
 		for {
+			if want == 0 {
+				select {
+				case <-doneCh:
+					log.add(tracefmt.Rec{"ev": "end", "dir": dir, "closed": false, "got": got})
+					return
+				default:
+				}
+			}
 			wf, err := fr.Read(250 * time.Millisecond)
 			if err != nil {
 				if ne, ok := err.(interface{ Timeout() bool }); ok && ne.Timeout() {
@@ -520,8 +630,7 @@ func runScenario(r *rig.Rig, w *world, si int, sc scenario, seed int64, idle tim
 					}
 					continue
 				}
-				closed = true
-				log.add(tracefmt.Rec{"ev": "end", "dir": dir, "closed": closed, "got": got, "err": err.Error()})
+				log.add(tracefmt.Rec{"ev": "end", "dir": dir, "closed": true, "got": got, "err": err.Error()})
 				return
 			}
 			last = time.Now()
@@ -532,13 +641,20 @@ func runScenario(r *rig.Rig, w *world, si int, sc scenario, seed int64, idle tim
 			got++
 			log.add(tracefmt.Rec{"ev": "recv", "dir": dir, "id": wf.ID, "len": len(wf.Payload),
 				"hash": hex.EncodeToString(s[:]), "comp": wf.Compressed, "flen": wf.FrameLen})
+			if got >= want {
+				select {
+				case <-doneCh:
+					log.add(tracefmt.Rec{"ev": "end", "dir": dir, "closed": false, "got": got})
+					return
+				default:
+				}
+			}
 		}
 	}
 	var rwg sync.WaitGroup
 	rwg.Add(2)
-	go recvLoop("c2s", rig.NewFrameReader(ho.bc.Conn), sb.mine, expect(c2s), &rwg)
-	go recvLoop("s2c", rig.NewFrameReader(c.Conn), cb.mine, expect(s2c), &rwg)
-
+	go recvLoop("c2s", e.frB, e.sb.mine, expect(c2s), &rwg)
+	go recvLoop("s2c", e.frC, e.cb.mine, expect(s2c), &rwg)
 	send := func(dir string, conn *mcwire.Conn, os []out) {
 		defer sendersDone.Done()
 		for _, o := range os {
@@ -547,13 +663,102 @@ func runScenario(r *rig.Rig, w *world, si int, sc scenario, seed int64, idle tim
 			if err := conn.WritePacket(o.id, o.body); err != nil {
 				return // the connection is gone: the receiver's "end" record reports it
 			}
+			if o.held && held != nil {
+				held(dir, o)
+			}
 		}
 	}
 	sendersDone.Add(2)
-	go send("c2s", c.Conn, c2s)
-	go send("s2c", ho.bc.Conn, s2c)
+	go send("c2s", e.c.Conn, c2s)
+	go send("s2c", e.ho.bc.Conn, s2c)
 	sendersDone.Wait()
 	close(doneCh)
 	rwg.Wait()
-	return log, ""
+}
+
+// peerTraffic builds n poorly compressible packets well above every threshold.
+func peerTraffic(di dirInfo, dir string, n int, rng *rand.Rand) []out {
+	var res []out
+	for i := 0; i < n; i++ {
+		body := make([]byte, 700+rng.Intn(2400))
+		rng.Read(body)
+		for j := range body {
+			if j%3 == 0 {
+				body[j] = 0
+			}
+		}
+		copy(body, []byte{dir[0], 'p', byte(i)})
+		res = append(res, out{id: di.unknown[rng.Intn(len(di.unknown))], body: body, kind: "unknown"})
+	}
+	return res
+}
+
+// runScenario joins one client (and, for scenarios with held packets, two more players on
+// the same proxy and backend), pumps the scenario and returns the runs' records; note != ""
+// means the rig could not set the scenario up (never a verdict).
+func runScenario(r *rig.Rig, w *world, si int, sc scenario, seed int64, idle time.Duration) ([]*runLog, string) {
+	rng := rand.New(rand.NewSource(seed*1000003 + int64(si)*7919))
+	name := fmt.Sprintf("r%d_%d", seed%1000, si)
+	cthr, bthr := sc.Cthr-1, sc.Bthr-1
+	if sc.Ver < rig.P1_8 {
+		return nil, "protocol below 1.8 not driven"
+	}
+	e, note := joinPlayer(r, w, name, sc.Ver, cthr, sc.Bthr, tracefmt.Rec{"scen": si})
+	if note != "" {
+		return nil, note
+	}
+	defer e.close()
+	var c2sSteps, s2cSteps []step
+	hasHeld := false
+	for _, s := range sc.H {
+		if s.Dir == "c2s" {
+			c2sSteps = append(c2sSteps, s)
+		} else {
+			s2cSteps = append(s2cSteps, s)
+		}
+		hasHeld = hasHeld || (s.Size == "held" && s.Kind == "unknown")
+	}
+	c2s := expand(c2sSteps, "c2s", sc.Ver, cthr, bthr, e.sb, rng)
+	s2c := expand(s2cSteps, "s2c", sc.Ver, bthr, cthr, e.cb, rng)
+	logs := []*runLog{e.log}
+	var peers []*endpoint
+	if hasHeld {
+		for k := 0; k < 2; k++ {
+			pe, pnote := joinPlayer(r, w, fmt.Sprintf("%sp%d", name, k), sc.Ver, cthr, sc.Bthr, tracefmt.Rec{"scen": si, "peer": k})
+			if pnote != "" {
+				continue // fewer peers: less contention, still a valid run
+			}
+			defer pe.close()
+			peers = append(peers, pe)
+			logs = append(logs, pe.log)
+		}
+	}
+	var hmu sync.Mutex // one contention round at a time (the peers are shared by both directions)
+	held := func(dir string, o out) {
+		if o.h == nil {
+			return
+		}
+		select {
+		case <-o.h.parked:
+		case <-time.After(10 * time.Second):
+			// the frame never reached a compressing encoder (hop without compression): nothing to hold
+			close(o.h.release)
+			return
+		}
+		hmu.Lock()
+		var pw sync.WaitGroup
+		for k, pe := range peers {
+			pw.Add(1)
+			go func(k int, pe *endpoint) {
+				defer pw.Done()
+				prng := rand.New(rand.NewSource(seed*31 + int64(si)*131 + int64(k)*7 + int64(len(pe.log.recs))))
+				pe.exchange(peerTraffic(pe.sb, "c2s", 24, prng), peerTraffic(pe.cb, "s2c", 24, prng), idle, nil)
+			}(k, pe)
+		}
+		pw.Wait()
+		hmu.Unlock()
+		close(o.h.release)
+	}
+	e.exchange(c2s, s2c, idle, held)
+	return logs, ""
 }
